@@ -205,16 +205,16 @@ func (fr *frame) instr(ins ssa.Instruction, bc string, st *state) {
 			s := fr.val(i.X)
 			o := fr.oblige("bounds", "index:"+fr.srcText(i.Pos()), bc, and(app("<=", "0", idx), app("<", idx, app("s.len", s))), i.Pos(), nil)
 			o.Src = fr.srcText(i.Pos())
-			fr.ptrs[i] = &ptrInfo{region: e.memRegion(xt.Elem()), addr: app("+", app("s.base", s), idx), cell: xt.Elem()}
-			fr.vals[i] = app("+", app("s.base", s), idx)
+			fr.ptrs[i] = &ptrInfo{region: e.memRegion(xt.Elem()), addr: app("ea", app("s.base", s), idx), cell: xt.Elem()}
+			fr.vals[i] = app("ea", app("s.base", s), idx)
 		case *types.Pointer:
 			arr := xt.Elem().Underlying().(*types.Array)
 			p := fr.ptr(i.X)
 			o := fr.oblige("bounds", "index:"+fr.srcText(i.Pos()), bc, and(app("<=", "0", idx), app("<", idx, intLit64(arr.Len()))), i.Pos(), nil)
 			o.Src = fr.srcText(i.Pos())
 			if p.flat { // flattened
-				fr.ptrs[i] = &ptrInfo{region: p.region, addr: app("+", p.addr, idx), cell: arr.Elem()}
-				fr.vals[i] = app("+", p.addr, idx)
+				fr.ptrs[i] = &ptrInfo{region: p.region, addr: app("ea", p.addr, idx), cell: arr.Elem()}
+				fr.vals[i] = app("ea", p.addr, idx)
 			} else {
 				np := &ptrInfo{region: p.region, addr: p.addr, cell: p.cell}
 				np.path = append(append([]pathStep{}, p.path...), pathStep{field: -1, index: idx, cont: xt.Elem()})
@@ -1028,6 +1028,7 @@ func (e *Enc) tagVisible(t int) bool {
 // product registers a non-linear product u*v and emits sign and monotonicity lemma instances
 // (valid facts of integer arithmetic) against earlier products sharing a factor.
 func (e *Enc) product(u, v string) {
+	u, v = e.canon(u), e.canon(v)
 	for _, p := range e.products {
 		if e.tagVisible(p.tag) && ((p.u == u && p.v == v) || (p.u == v && p.v == u)) {
 			return
